@@ -20,6 +20,7 @@ func checkC02(c *an.Ctx) {
 	c.Rule("C02.4", "error report (E4/E7): ExecutionGraph.error has one writer; LastError returns it; Schedule returns LastError() on every exit, read after a synchronous wait for the stage goroutines; the runner caller returns the nested Schedule's result unchanged")
 	c.Rule("C02.5", "monotone status (E3/E4): every status write of the scheduling goroutine is dominated by status==Waiting on that stage; Waiting is never written; Running is written at one site")
 	c.Rule("C02.6", "a failure does not stop the others (E4): Scheduler.cancelled is written only by Scheduler.Cancel; its only in-package caller is the condition-error row; the stage goroutine cannot reach Cancel")
+	c.Rule("C02.8", "failures travel along the declared edges (= C01.5): what the gate reads for a stage is exactly its depends_on list — an edge the graph drops (as a duplicate, as \"implied\") is a failed dependency that no longer cancels the stage")
 	c.Rule("C02.7", "done test (E2): isDone is false iff some stage is Waiting or Running")
 	c.NotDecided = append(c.NotDecided,
 		"confluence over all completion orders is argued from C02.5 (terminal statuses are stable), not proved over schedules",
@@ -37,6 +38,7 @@ func checkC02(c *an.Ctx) {
 	monotoneStatus(c, s, "C02.5")
 	failureIsLocal(c, s, "C02.6")
 	doneTest(c, s, "C02.7")
+	edgeWiring(c, s, "C02.8")
 }
 
 // isGraphErrorAddr reports whether v is &graph.error.
